@@ -19,13 +19,13 @@ ORACLE_NEEDS_JUDGE = True
 TIMEOUT = 900
 MANIFEST = {
     "level_text": "Kernel-checked inductive invariant (run_inv/step_inv) over a model of request/registerRequestState/deregisterRequestState/completeRequest/enqueueAsyncError/cancelInFlightRequests/dispatchOne's stash gate/unstashAll, for EVERY configuration (reentrancy installed or not, default mode, MaxInFlight) and EVERY script of events (requests with per-call mode override, ordinary messages, replies incl. duplicates, timeouts, cancels, late Then, mailbox batching, shutdown): a continuation runs at most once (C16_once) and exactly once when its request was completed by an envelope the requester dequeued (C16_exactly_once); continuations fired by a completion run inside dispatchOne — the only off-turn runs are late Then registrations made from outside the actor (C16_on_turn); inFlight <= MaxInFlight when positive (C16_limit); inFlight = |requestStates|, blocking = |stash-mode requests|, both 0 with an empty table (C16_counters); while blocking > 0 dispatchOne stashes every ordinary message and handles nothing (C16_stash_gate); the release appends the held messages to the mailbox in arrival order and the mailbox is FIFO (C16_release_order, pump_fifo); conjunction C16_holds. Tied to the code by a differential run of a real requester/responder pair against the model (equal per-op counters and requester log), and a separately written oracle of the property text evaluated on the implementation's observations.",
-    "level_note": "Reading: `completes` = the request state is completed once; shutdown (cancelInFlightRequests) completes pending requests WITHOUT running continuations, so exactly-once for the continuation is for requests completed while the requester keeps running. Not modelled: RequestGrain / grain_pid.go (same registerRequestState/complete machinery, different delivery), remote requesters, real timers (the harness makes the call the timer goroutine makes), concurrent off-turn completion racing a dequeue (complete/setCallback are modelled as atomic, which the state mutex provides), restart. The oracle's arrival-order and exactly-once clauses are evaluated only on scripts without hold/release/shutdown; the held messages re-enter BEHIND messages that arrived after the reply (order among held messages is kept, not the global arrival order) — the text says `in arrival order`, read as among themselves.",
+    "level_note": "Reading: `completes` = the request state is completed once; shutdown (cancelInFlightRequests) completes pending requests WITHOUT running continuations, so exactly-once for the continuation is for requests completed while the requester keeps running. Request and RequestGrain issued by an ACTOR are both tied (the grain responder defers replies with DeferResponse). Not modelled: a GRAIN as the requester (grain_pid.go: pause instead of stash, separate response queue, teardown runs continuations), RequestName, remote requesters, real timers (the harness makes the call the timer goroutine makes), concurrent off-turn completion racing a dequeue (complete/setCallback are modelled as atomic, which the state mutex provides), restart. The oracle's arrival-order and exactly-once clauses are evaluated only on scripts without hold/release/shutdown; the held messages re-enter BEHIND messages that arrived after the reply (order among held messages is kept, not the global arrival order) — the text says `in arrival order`, read as among themselves.",
     "technique": "Lean 4 inductive invariants over a model of the reentrant-request machinery (all event sequences) + differential run of a real requester/responder pair against the model + spec oracle on the implementation's observations",
 }
 TRUSTED = [
     "the harness' quiescence detection (dispatch state idle / parked in a hold handler) and its way of firing timeouts (the call the timer goroutine makes) instead of waiting for real timers",
 ]
-RULE = ("actor-level mode {AllowAll, StashNonReentrant, not enabled} x MaxInFlight {0,1,2,3}; scripts of <= 12 ops over requests (per-call mode overrides, Then now/late), "
+RULE = ("responder an actor (Request) or a grain (RequestGrain, replies deferred with DeferResponse); actor-level mode {AllowAll, StashNonReentrant, not enabled} x MaxInFlight {0,1,2,3}; scripts of <= 12 ops over requests (per-call mode overrides, Then now/late), "
         "ordinary messages, replies incl. duplicates, timeouts, cancels, hold/release batching, shutdown; non-trivial = at least one request was admitted; distinct by (case, output)")
 
 
@@ -66,7 +66,8 @@ def gen_case(rng, maxlen=12, simple=None):
         else:
             ops.append(f"m{nm % 10}")
             nm += 1
-    return f"mode={mode} max={mx} | " + " ".join(ops)
+    to = " to=g" if rng.random() < 0.4 else ""
+    return f"mode={mode} max={mx}{to} | " + " ".join(ops)
 
 
 def gen_cases(rng, tier):
@@ -89,7 +90,7 @@ def is_trivial(case, impl):
 def tag(case, impl):
     cfg = case.split("|")[0].split()
     kind = "simple" if not any(o in ("H", "L", "S") for o in case.split("|")[1].split()) else "batched"
-    return f"{cfg[0]}/{'lim' if cfg[1] != 'max=0' else 'nolim'}/{kind}"
+    return f"{cfg[0]}/{'lim' if cfg[1] != 'max=0' else 'nolim'}/{kind}/{'grain' if 'to=g' in cfg else 'actor'}"
 
 
 def oracle(case, impl, judge):
